@@ -254,9 +254,10 @@ func runC19(c *core.Ctx) {
 		// ---------------- phase A: readers only
 		{
 			shared := mk()
+			seqA := mk() // the sequential reference runs on a separate, identical buffer: the shared one stays untouched ("cold") until the goroutines start
 			want := make([]uint64, R)
 			for g := 0; g < R; g++ {
-				want[g] = e.readerWork(shared, frames, core.NewRand(c.Seed, core.HashStr(caseID), uint64(g)), nOps, nil)
+				want[g] = e.readerWork(seqA, frames, core.NewRand(c.Seed, core.HashStr(caseID), uint64(g)), nOps, nil)
 			}
 			got := make([]uint64, R)
 			var wg sync.WaitGroup
